@@ -46,6 +46,13 @@ func (m *Method) Call(s *Scope, args List, depth int) Object {
 
 // InnerCall calls the before, after, and primary method daemons.
 func (m *Method) InnerCall(s *Scope, args List, depth int) (result Object) {
+	// The daemons are not wrappers. A call-next-method or continue-whopper in
+	// one of them must not find the location of an around method or whopper
+	// that is running, of this method or of a caller's, and continue that.
+	if loc, _ := s.localGet("~whopper-location~"); loc != nil {
+		s = s.NewScope()
+		s.Let("~whopper-location~", nil)
+	}
 	for _, c := range m.Combinations {
 		if c.Before != nil {
 			c.Before.Call(s, args, depth)
